@@ -143,6 +143,16 @@ example : let U : PW.Tensor ℂ := fun idx => if idx = [0, 1] ∨ idx = [1, 0] t
   rw [hd] at hj hk ⊢
   interval_cases j <;> interval_cases k <;> simp [U, Finset.sum_range_succ, PW.conj_eq_star]
 
+/-- **measuring one subsystem is invisible in all the others, in a space of any number of subsystems**:
+summed over the outcomes `o` of the subsystem at position `q`, the collapsed (Born-weighted) states
+`projectOn dims q o ρ` have, on every list `K ∌ q` of other subsystems, the reduced state that `ρ` had —
+every dimension list, every joint state, every entry. -/
+theorem measurement_invisible_in_any_other_subsystems {R : Type} [CommRing R] [StarRing R]
+    (dims K : List Nat) (q : Nat) (hq : q < dims.length) (hqK : q ∉ K) (ρ : PW.Tensor R) (rc : List Nat) :
+    ((List.range (dims.getD q 0)).map fun o => PW.Spec.reduceTo dims K (PW.Spec.projectOn dims q o ρ) rc).sum
+      = PW.Spec.reduceTo dims K ρ rc :=
+  PW.Spec.reduceTo_measurement dims K q hq hqK ρ rc
+
 end PW.Props.C20
 
 #print axioms PW.Props.C20.bystander_untouched_by_combine
@@ -165,3 +175,4 @@ end PW.Props.C20
 #print axioms PW.Props.C20.measurement_invisible_in_the_rest
 #print axioms PW.Props.C20.operation_invisible_in_any_other_subsystems
 #print axioms PW.Props.C20.channel_invisible_in_any_other_subsystems
+#print axioms PW.Props.C20.measurement_invisible_in_any_other_subsystems
